@@ -18,7 +18,7 @@ struct WorldH : World {
   std::vector<std::string> unlinks;   // canonical paths qmail-clean tried to unlink under queue/ (pid/ sweeps recorded separately)
   std::vector<std::string> pid_unlinks; std::vector<int> unlink_err;   // errno of each unlink attempt outside pid/ (0 = removed)
   // spawners
-  struct Agent { std::string role; std::vector<std::string> argv; uint32_t uid, euid, gid; std::vector<uint32_t> groups; bool fd0_regular = false; uint32_t fd0_owner = 0; std::string fd0_path; std::string idseq; int pid = 0; bool used = false; };
+  struct Agent { std::string role; std::vector<std::string> argv; uint32_t uid, euid, gid; std::vector<uint32_t> groups; bool fd0_regular = false; uint32_t fd0_owner = 0; std::string fd0_path; std::string idseq; int pid = 0; bool used = false;  std::vector<int> extra_fds;};
   std::vector<Agent> agents;
   std::vector<std::string> spawner_opens;
   Json agent_script;              // list of {out, code, crash}
@@ -79,6 +79,7 @@ struct WorldH : World {
     Agent a; a.role = p->role; for (int i = 0; i < argc; i++) a.argv.push_back(argv[i]); a.uid = p->uid; a.euid = p->euid; a.gid = p->gid; a.groups = p->groups;
     if (p->fds.size() > 0 && p->fds[0].of) { OFile *of = p->fds[0].of; a.fd0_regular = of->kind == O_FILE && of->ino && of->ino->type == T_REG; a.fd0_owner = of->ino ? of->ino->uid : 0; a.fd0_path = of->path; }
     a.pid = p->pid; a.idseq = idseq[p->pid];
+    for (size_t fd = 3; fd < p->fds.size(); fd++) if (p->fds[fd].of) a.extra_fds.push_back((int)fd);   // a delivery agent gets the message, its own report pipe, and nothing else
     agents.push_back(a);
     // which script? in C09 mode the recipient "u<k>@..." names it, otherwise in order of running
     size_t pick = agent_no++; if (c09r && a.argv.size() >= 4 && a.argv[3].size() > 1 && a.argv[3][0] == 'u') pick = (size_t)atoi(a.argv[3].c_str() + 1);
@@ -216,6 +217,7 @@ struct WorldH : World {
     for (auto &a : agents) {
       if (!a.fd0_regular || a.fd0_owner != uq) { violate("C18.agent-on-unvalidated-file", a.role + " was started with descriptor 0 on " + a.fd0_path + (a.fd0_regular ? " (owner " + std::to_string(a.fd0_owner) + ")" : " (not a regular file)")); return; }
       if (a.role == "qmail-local" && a.uid == 0) { violate("C18.agent-as-root", "qmail-local started as root"); return; }
+      if (!a.extra_fds.empty()) { std::string l; for (int fd : a.extra_fds) l += std::to_string(fd) + " "; violate("C18.agent-inherits-descriptors", a.role + " (pid " + std::to_string(a.pid) + ") was started with descriptors { " + l + "} open besides 0, 1 and 2: the report pipes of other deliveries must not leak into an agent"); return; }
     }
   }
 
